@@ -94,7 +94,7 @@ def gen_case(rng: random.Random, tier: str) -> dict:
     if fns and rng.random() < 0.3:
         nd, _d = rng.choice(fns)
         fault = {"kind": "raise", "node": nd["name"], "inv": 0, "fid": 0, "when": "before"}
-    return {"graph": g, "inputs": inp, "entry": entry, "gsel": gsel, "rsel": rsel, "on_missing": rng.choice(["ignore", "warn", "error"]), "fault": fault, "interrupt": interrupt, "rsel_tuple": rsel_tuple, "cfg": gen.gen_async_cfg(rng, allow_hold=False), "error_handling": "continue", "reuse": rng.random() < 0.35}
+    return {"graph": g, "inputs": inp, "entry": entry, "gsel": gsel, "rsel": rsel, "on_missing": rng.choice(["ignore", "warn", "error"]), "fault": fault, "interrupt": interrupt, "rsel_tuple": rsel_tuple, "cfg": gen.gen_async_cfg(rng, allow_hold=False), "error_handling": "continue", "reuse": rng.random() < 0.35, "budget_probe": rng.random() < 0.3}
 
 
 def _declared_outputs(g: dict) -> list[str]:
@@ -272,6 +272,7 @@ def run_case(doc: dict) -> dict:
 
         faults = [doc["fault"]] if doc.get("fault") else []
         modes = (["async"] if doc.get("interrupt") else ["sync", "async"])
+        min_budget: dict[str, int] = {}
         for mode in modes:
             cache = InMemoryCache() if any(nd.get("cache") for nd, _d, _p in iter_nodes(g)) else None
             rounds = 2 if cache is not None else 1
@@ -324,6 +325,22 @@ def run_case(doc: dict) -> dict:
                     if not (out["status"] in ("failed", "raised") and err and err[0] == "ValueError"):
                         viol.append((f"{tag}:on_missing_error_did_not_raise_value_error", {"status": out["status"], "error": err, "missing": missing}))
                     res["stats"]["probe_on_missing_error"] = res["stats"].get("probe_on_missing_error", 0) + 1
+                    # ---- on_missing="error" under runner.map: the item fails exactly as the run does
+                    om_failed = out["status"] == "failed" and out["error"] and out["error"][0] == "ValueError" and "Requested outputs not found" in str(out["error"][1])
+                    if om_failed and not faults and not doc.get("interrupt") and isinstance(w["values"], dict):
+                        gi = w["graph"].inputs.all
+                        names = [k for k in sorted(w["values"]) if k in gi and isinstance(w["values"][k], int) and not isinstance(w["values"][k], bool)]
+                        if names:
+                            mvals = dict(w["values"])
+                            mvals[names[0]] = [mvals[names[0]]]
+                            wm = run_world(gs, mvals, mode=mode, cfg=doc["cfg"], run_kwargs=kw_now(map_over=names[0]), op="map", cache=cache, derive=derive, warm_values=wref["values"])
+                            rts.append(wm["rt"])
+                            res["runs"] += 1
+                            om = wm["out"]
+                            res["stats"]["probe_on_missing_error_under_map"] = res["stats"].get("probe_on_missing_error_under_map", 0) + 1
+                            item = om["items"][0] if (om["status"] == "list" and len(om["items"]) == 1) else None
+                            if item is None or item["status"] != "failed" or not item["error"] or item["error"][0] != "ValueError":
+                                viol.append((f"{tag}:on_missing_error_not_applied_to_map_item", {"run": [out["status"], out["error"]], "map": [om["status"], item and [item["status"], item["values"], item["error"]], om.get("error")]}))
                     continue
                 if out["status"] not in ("completed", "failed", "paused"):
                     if out["status"] == "raised" and oall["status"] == "raised" and canon(out["error"]) == canon(oall["error"]):
@@ -415,6 +432,22 @@ def run_case(doc: dict) -> dict:
                             viol.append((f"{tag}:map_of_one_item_unexpected_outcome", {"status": om["status"], "error": om["error"]}))
                 if eff is not None and any(k not in (eff or []) for k in produced_all):
                     res["stats"]["probe_selection_removed_output"] = res["stats"].get("probe_selection_removed_output", 0) + 1
+                # ---- the smallest step budget that lets the scoped run complete is the same under both runners
+                if doc.get("budget_probe") and rd == 0 and cache is None and not faults and not doc.get("interrupt") and out["status"] == "completed":
+                    for m in range(1, 10):
+                        wb = run_world(gs, values, mode=mode, cfg=doc["cfg"], run_kwargs=dict(kw_now(), max_iterations=m), derive=derive, warm_values=wref["values"])
+                        rts.append(wb["rt"])
+                        res["runs"] += 1
+                        ob = wb["out"]
+                        if ob["status"] == "completed":
+                            min_budget[mode] = m
+                            break
+                        if not (ob["status"] in ("failed", "raised") and ob["error"] and ob["error"][0] == "InfiniteLoopError"):
+                            break
+        if len(min_budget) == 2:
+            res["stats"]["probe_smallest_step_budget_compared"] = 1
+            if min_budget["sync"] != min_budget["async"]:
+                viol.append(("smallest_sufficient_max_iterations_differs_between_runners", {"sync": min_budget["sync"], "async": min_budget["async"], "entry": doc.get("entry")}))
     except BuildError:
         res["discard"] = "build_error"
         return res
